@@ -37,6 +37,7 @@ LEVEL_NOTE = 'Trusted: renderer offsets, the report parsers (regex / json / Elem
 TECHNIQUE = 'Hypothesis document generator + fake proofreader, differential of all report formats against predicted source positions (subprocess, HTTP)'
 
 MODES = ['plain', 'json', 'xml', 'xml-b', 'html']
+SRV_COUNT = [0]
 small_doc = st.tuples(st.recursive(docgen.leaf_flow, docgen.mkflow, max_leaves=8), st.sampled_from(['', '\n']))
 
 
@@ -94,10 +95,14 @@ class Server:
 
 
 def expected_of(src, flagged):
+    """flagged: (plain word, source offset[, length of its source text])"""
     exp = []
-    for w, off in sorted(flagged, key=lambda t: t[1]):
+    for t in sorted(flagged, key=lambda t: t[1]):
+        w, off = t[0], t[1]
+        ln = t[2] if len(t) > 2 else len(w)
         lin, col = linecol(src, off)
-        exp.append({'word': w, 'offset': off, 'length': len(w), 'line': lin, 'col': col})
+        elin, ecol = linecol(src, off + ln - 1)
+        exp.append({'word': w, 'offset': off, 'length': ln, 'line': lin, 'col': col, 'endline': elin, 'endcol': ecol})
     return exp
 
 
@@ -131,7 +136,7 @@ def check_mode(mode, out, src, exp, rc):
                 raise Violation(mode + '-report-context-marks-other-text', rc, dict(det, context=c, word=e['word']))
             if mode == 'json':
                 p = m['priv']
-                wantp = {'fromy': e['line'] - 1, 'fromx': e['col'] - 1, 'toy': e['line'] - 1, 'tox': e['col'] - 1 + e['length']}
+                wantp = {'fromy': e['line'] - 1, 'fromx': e['col'] - 1, 'toy': e['endline'] - 1, 'tox': e['endcol']}
                 if p != wantp:
                     raise Violation('json-report-line-column', rc, dict(det, priv=p, want=wantp))
     elif mode in ('xml', 'xml-b'):
@@ -141,10 +146,11 @@ def check_mode(mode, out, src, exp, rc):
             raise Violation('xml-report-count', rc, det)
         for el, e in zip(errs, exp):
             line = lines[e['line'] - 1]
-            a, b = e['col'] - 1, e['col'] - 1 + e['length']
+            eline = lines[e['endline'] - 1]
+            a, b = e['col'] - 1, e['endcol']
             if mode == 'xml-b':
-                a, b = len(line[:a].encode('utf-8')), len(line[:b].encode('utf-8'))
-            want = {'fromy': str(e['line'] - 1), 'fromx': str(a), 'toy': str(e['line'] - 1), 'tox': str(b)}
+                a, b = len(line[:a].encode('utf-8')), len(eline[:b].encode('utf-8'))
+            want = {'fromy': str(e['line'] - 1), 'fromx': str(a), 'toy': str(e['endline'] - 1), 'tox': str(b)}
             got = {k: el.get(k) for k in want}
             if got != want:
                 raise Violation(mode + '-report-positions', rc, dict(det, got=got, want=want))
@@ -169,13 +175,13 @@ def check_mode(mode, out, src, exp, rc):
             raise Violation('html-report-highlights', rc, dict(det, got=found, want=want))
 
 
-def run_case(ctx, src, flagged, workdir, server, extra_args=(), nt=False, family='single', ml_info=None):
+def run_case(ctx, src, flagged, workdir, server, extra_args=(), nt=False, family='single', ml_info=None, modes=None):
     exp = expected_of(src, flagged)
     with open(os.path.join(workdir, 't.tex'), 'w', encoding='utf-8', newline='') as f:
         f.write(src)
     log = os.path.join(workdir, 'log.jsonl')
-    plan = {'mode': 'flag_words', 'words': [w for w, _ in flagged], 'log': log, 'shuffle': True}
-    for mode in MODES:
+    plan = {'mode': 'flag_words', 'words': [t[0] for t in flagged], 'log': log, 'shuffle': True}
+    for mode in (modes or MODES):
         rc = {'src': src, 'flagged': flagged, 'args': list(extra_args), 'mode': mode}
         if os.path.exists(log):
             os.unlink(log)
@@ -187,22 +193,34 @@ def run_case(ctx, src, flagged, workdir, server, extra_args=(), nt=False, family
         check_mode(mode, out, src, exp, rc)
         if ml_info is not None:
             check_log(log, ml_info, rc)
-        ctx.stats.case(key=(src, [w for w, _ in flagged], mode, list(extra_args)), nontrivial=nt,
+        ctx.stats.case(key=(src, [t[0] for t in flagged], mode, list(extra_args)), nontrivial=nt,
                        classes=[family + ':' + mode] + (['non-ascii-before-word'] if any(ord(c) > 127 for e in exp for c in src.split('\n')[e['line'] - 1][:e['col'] - 1]) else []),
-                       sample={'src': src[-400:], 'flagged': [w for w, _ in flagged], 'mode': mode, 'args': list(extra_args)})
-    if server is not None and family == 'single':
+                       sample={'src': src[-400:], 'flagged': [t[0] for t in flagged], 'mode': mode, 'args': list(extra_args)})
+    if server is not None and family in ('single', 'compound'):
         rc = {'src': src, 'flagged': flagged, 'mode': 'server'}
         with watchdog(150):
             sut_plan = os.path.join(workdir, 'plan.json')
             with open(sut_plan, 'w', encoding='utf-8') as f:
                 json.dump(plan, f, ensure_ascii=False)
             tex = src if src.endswith('\n') else src + '\n'
+            SRV_COUNT[0] += 1
+            with_field = SRV_COUNT[0] % 2 == 1
+            if os.path.exists(log):
+                os.unlink(log)
             try:
-                resp = server.request(tex)
+                resp = server.request(tex, extra={'disabledRules': 'REQRULE'} if with_field else None)
             except Exception as e:
                 raise Violation('server-request-failed', rc, repr(e))
         check_mode('server', resp, src, exp, rc)
-        ctx.stats.case(key=(src, [w for w, _ in flagged], 'server'), nontrivial=nt, classes=['single:server'])
+        # the configured rule options (--lt-options of the server) apply unless the request overrides them
+        if os.path.exists(log):
+            for line in open(log, encoding='utf-8'):
+                argv = json.loads(line)['argv']
+                dis = [argv[i + 1] for i, a in enumerate(argv[:-1]) if a == '--disable']
+                want = ['REQRULE'] if with_field else ['SRVRULE']
+                if sorted(set(dis)) != want:
+                    raise Violation('server-rule-options', rc, {'proofreader_argv': argv, 'expected_disable': want, 'request_has_disabledRules': with_field})
+        ctx.stats.case(key=(src, [t[0] for t in flagged], 'server'), nontrivial=nt, classes=[family + ':server'])
 
 
 def check_log(log, ml_info, rc):
@@ -249,7 +267,7 @@ def run_shard(ctx):
     import shutil
     shutil.copy(os.path.join(sut.scratch_dir(), docgen.SED_NAME), d)
     os.chdir(d)
-    server = Server(d)
+    server = Server(d, ['--lt-options', '~--disable SRVRULE'])
     if not server.start():
         ctx.error('could not start the server emulation')
         server = None
@@ -265,13 +283,42 @@ def run_shard(ctx):
             r = random.Random(len(src) * 7919 + len(words))
             k = r.randint(1, min(4, len(words)))
             flagged = r.sample(words, k)
-            lines = {src.count('\n', 0, o) for _, o in flagged}
+            lines = {src.count('\n', 0, t[1]) for t in flagged}
             nt = len(lines) >= 2 and bool(m.features & {'gen', 'vanish', 'removed-env', 'skip-region', 'inline-maths', 'heading', 'list', 'detached'})
             # the glossary data base is passed like a user would: --define file
             with open(os.path.join(d, 'defs.tex'), 'w', encoding='utf-8') as f:
                 f.write(docgen.DEFS)
             run_case(ctx, src, flagged, d, None if 'glossary' in m.features else server, extra_args=['--define', 'defs.tex', '--language', 'en'], nt=nt)
         hyp_run(ctx, small_doc, single, ctx.n(480, 6400))
+
+        # words whose source text is longer than their plain text (accent macro inside, group boundary inside, comment + line break inside)
+        rnd = random.Random(ctx.shard_seed + 4)
+        for _ in range(ctx.n(160, 3200)):
+            src = ''
+            cands = []
+            nw = 0
+            for k in range(rnd.randint(3, 9)):
+                nw += 1
+                core = ''.join('abcdefghij'[int(dd)] for dd in '%03d' % nw)
+                kind = rnd.choice(['plain', 'accent', 'group', 'comment', 'plain', 'emph-inside'])
+                pre = ''
+                if kind == 'plain':
+                    stxt, ptxt = 'W' + core + 'q', 'W' + core + 'q'
+                elif kind == 'accent':
+                    stxt, ptxt = 'W' + core[:2] + '\\"o' + core[2:] + 'q', 'W' + core[:2] + '\u00f6' + core[2:] + 'q'
+                elif kind == 'group':
+                    pre, stxt, ptxt = '\\emph{', 'W' + core[:2] + '}' + core[2:] + 'q', 'W' + core + 'q'
+                elif kind == 'emph-inside':
+                    stxt, ptxt = 'W' + core[:1] + '\\emph{' + core[1:] + '}q', 'W' + core + 'q'
+                else:
+                    stxt, ptxt = 'W' + core[:2] + '%\n' + core[2:] + 'q', 'W' + core + 'q'
+                src += pre
+                cands.append((ptxt, len(src), len(stxt)))
+                src += stxt + rnd.choice([' ', ' ', '\n', ' und ', '.\n'])
+            src += '\n'
+            flagged = rnd.sample(cands, rnd.randint(1, min(4, len(cands))))
+            run_case(ctx, src, flagged, d, server, extra_args=['--language', 'en-GB'], nt=len(flagged) >= 2 and any(t[2] != len(t[0]) for t in flagged),
+                     family='compound', modes=['plain', 'json', 'xml', 'xml-b'])
 
         from props import c12_multilang as c12
 
